@@ -63,6 +63,12 @@ def main():
         vc = f"/tmp/verifcopy_{name}"
         shutil.rmtree(vc, ignore_errors=True)
         sh(f"rsync -a --exclude .git --exclude replays --exclude seeded {VERIF}/ {vc}/")
+        # files somebody is still writing (untracked, not ignored) do not belong to the machinery under evaluation
+        for u in sh(f"git -C {VERIF} ls-files --others --exclude-standard")[1].splitlines():
+            try:
+                os.remove(os.path.join(vc, u.strip()))
+            except OSError:
+                pass
         for c in checks:
             t0 = time.time()
             rc, out = sh(f"./check {c} --tier quick", cwd=vc, env=env, timeout=3000)
